@@ -72,6 +72,26 @@ fn _get_std_fds(redirects: &[Redirection]) -> (Option<RawFd>, Option<RawFd>) {
     (fd_out, fd_err)
 }
 
+/// Check that every file named by the redirections of `cmd` can be opened
+/// (creating / truncating it like the redirection itself would).
+pub fn check_redirect_targets(cmd: &Command) -> Result<(), String> {
+    for item in &cmd.redirects_to {
+        if item.2.starts_with('&') {
+            continue;
+        }
+        let append = item.1 == ">>";
+        match tools::create_raw_fd_from_file(&item.2, append) {
+            Ok(fd) => unsafe {
+                libc::close(fd);
+            },
+            Err(e) => {
+                return Err(format!("{}: {}", item.2, e));
+            }
+        }
+    }
+    Ok(())
+}
+
 fn _get_dupped_stdout_fd(cmd: &Command, cl: &CommandLine) -> RawFd {
     // if with pipeline, e.g. `history | grep foo`, then we don't need to
     // dup stdout since it is running in a sperated process, whose fd can
